@@ -976,14 +976,22 @@ class Step(Node):
         )
 
     def has_unavailable_dynamic_input(self) -> bool:
-        """Determine if any dynamic input dependency is not currently `CONFIRMED` or `BUILT`."""
+        """Determine if any dynamic input dependency cannot be used as an input right now.
+
+        This is the case when it is detached, or not currently `CONFIRMED` or `BUILT`,
+        in line with `_SupplyInfo.availability` in `workflow.py`.
+        """
         sql = f"""
         SELECT EXISTS (
             SELECT 1 FROM dependency
             JOIN dynamic_dep ON dynamic_dep.i = dependency.i
             JOIN file ON file.node = dependency.source
+            JOIN node ON node.i = dependency.source
             WHERE dependency.sink = ?
-            AND file.state NOT IN ({FileState.CONFIRMED.value}, {FileState.BUILT.value})
+            AND (
+                node.detached
+                OR file.state NOT IN ({FileState.CONFIRMED.value}, {FileState.BUILT.value})
+            )
         )
         """
         return bool(self.db.execute(sql, (self.i,)).fetchone()[0])
